@@ -8,6 +8,8 @@
 //	seed                                      -> ok        dnsServer.seedSelf()
 //	disable                                   -> ok        reload to disabled: enabled=false, clearRecords()
 //	enable                                    -> ok        reload to enabled: enabled=true, seedSelf()
+//	renew <selfname> <selfaddrs>              -> ok        certificate reload + DNS reload: own certificate replaced, seedSelf()
+//	drop <k>                                  -> ok        HostMap.DeleteHostInfo of the hostinfo of handshake k
 //	hs <k> <certname> <addrs>                 -> ok        completed handshake number k with a peer whose
 //	                                                       certificate has that name and those overlay addresses
 //	q <client addr:port> <opcode> <qtype>:<name>:<oracle>;…
@@ -134,64 +136,135 @@ func question(r *hlib.Rand, known []string, addrs []string) string {
 	return fmt.Sprintf("%d:%s:%s", qt, hx(name), o)
 }
 
+var selfNames = []string{"lh", "LH", "Lighthouse", "host1", "lh2", "Host2", "lighthouse-new"}
+
 func gen(r *hlib.Rand, n int, tier, profile string, emit func(string, ...any)) {
 	for emitted := 0; emitted < n; {
 		// one history
 		selfName := "none"
 		var selfAddrs []string
 		if r.Chance(4, 5) {
-			selfName = hlib.Pick(r, "lh", "LH", "Lighthouse", "host1")
+			selfName = hlib.Pick(r, selfNames...)
 			selfAddrs = addrList(r, selfV4, selfV6)
 			emit("reset %s %s", hx(selfName), addrsArg(selfAddrs))
 		} else {
 			emit("reset none -")
 		}
 		emitted++
+		// names ever published stay in the query pool for the whole history: stale records (after a
+		// certificate rename, a disable/enable cycle, a tunnel teardown) are what the queries look for
 		known := []string{}
 		addrs := append([]string{}, selfAddrs...)
 		addrs = append(addrs, "10.0.0.5", "fd00::5")
 		if selfName != "none" {
 			known = append(known, selfName)
 		}
+		query := func(focus []string) {
+			emitted++
+			nq := hlib.Pick(r, 1, 1, 1, 1, 2, 2, 3, 0)
+			if focus != nil && nq == 0 {
+				nq = 1
+			}
+			qs := make([]string, nq)
+			for i := range qs {
+				pool := known
+				if focus != nil && (i == 0 || r.Bool()) {
+					pool = focus
+				}
+				qs[i] = question(r, pool, addrs)
+			}
+			qarg := strings.Join(qs, ";")
+			if nq == 0 {
+				qarg = "-"
+			}
+			op := mdns.OpcodeQuery
+			if focus == nil && r.Chance(1, 25) {
+				op = hlib.Pick(r, mdns.OpcodeNotify, mdns.OpcodeUpdate, mdns.OpcodeStatus)
+			}
+			cl := netip.AddrPortFrom(netip.MustParseAddr(hlib.Pick(r, clients...)), uint16(r.Range(1, 65535)))
+			emit("q %s %d %s", hlib.AddrPortHex(cl), op, qarg)
+		}
 		hsCount := 0
+		hsAddrs := map[int][]string{}
 		steps := r.Range(3, 14)
 		for s := 0; s < steps; s++ {
-			emitted++
-			x := r.Intn(20)
+			x := r.Intn(24)
 			if s < 2 && r.Bool() {
 				x = 0
 			}
 			switch {
 			case x < 4 && hsCount < 5:
+				emitted++
 				hsCount++
 				name := hlib.Pick(r, certNames...)
+				if r.Chance(1, 6) {
+					name = hlib.Pick(r, selfNames...) // a peer carrying (a spelling of) an own name
+				}
 				as := addrList(r, peerV4, peerV6)
 				known = append(known, name)
 				addrs = append(addrs, as...)
+				hsAddrs[hsCount] = as
 				emit("hs %d %s %s", hsCount, hx(name), addrsArg(as))
 			case x == 5:
+				emitted++
 				emit("seed")
-			case x == 6 && r.Bool():
+			case x == 6:
+				emitted++
 				emit("disable")
-				known = known[:0]
+				if r.Bool() {
+					query(known) // everything must be gone
+				}
+				if r.Chance(2, 3) {
+					emitted++
+					emit("enable")
+					query(known)
+				}
 			case x == 7:
+				emitted++
 				emit("enable")
+			case x == 8 || x == 9 || x == 10:
+				// certificate renewal: new name or a respelling of the same one, same or other addresses
+				emitted++
+				old := selfName
+				switch r.Intn(4) {
+				case 0:
+					if selfName != "none" {
+						selfName = mixCase(r, selfName) // same name: not a rename
+					} else {
+						selfName = hlib.Pick(r, selfNames...)
+					}
+				default:
+					selfName = hlib.Pick(r, selfNames...)
+				}
+				switch {
+				case len(selfAddrs) > 1 && r.Chance(1, 3):
+					// the renewed certificate loses addresses (often a whole family): their records must go
+					selfAddrs = []string{hlib.Pick(r, selfAddrs...)}
+				case r.Bool() || len(selfAddrs) == 0:
+					selfAddrs = addrList(r, selfV4, selfV6)
+				}
+				known = append(known, selfName)
+				addrs = append(addrs, selfAddrs...)
+				emit("renew %s %s", hx(selfName), addrsArg(selfAddrs))
+				focus := []string{selfName}
+				if old != "none" {
+					focus = append(focus, old, old)
+				}
+				for k := r.Range(1, 3); k > 0; k-- {
+					query(focus)
+				}
+			case x == 11 && hsCount > 0:
+				emitted++
+				k := r.Range(1, hsCount)
+				emit("drop %d", k)
+				if r.Bool() {
+					emitted++
+					a := hlib.Pick(r, hsAddrs[k]...)
+					pa := netip.MustParseAddr(a)
+					emit("q %s 0 16:%s:%s", hlib.AddrPortHex(netip.AddrPortFrom(netip.MustParseAddr("127.0.0.1"), 53)), hx(a+"."), hlib.AddrHex(pa))
+				}
 			default:
-				nq := hlib.Pick(r, 1, 1, 1, 1, 2, 2, 3, 0)
-				qs := make([]string, nq)
-				for i := range qs {
-					qs[i] = question(r, known, addrs)
-				}
-				qarg := strings.Join(qs, ";")
-				if nq == 0 {
-					qarg = "-"
-				}
-				op := mdns.OpcodeQuery
-				if r.Chance(1, 25) {
-					op = hlib.Pick(r, mdns.OpcodeNotify, mdns.OpcodeUpdate, mdns.OpcodeStatus)
-				}
-				cl := netip.AddrPortFrom(netip.MustParseAddr(hlib.Pick(r, clients...)), uint16(r.Range(1, 65535)))
-				emit("q %s %d %s", hlib.AddrPortHex(cl), op, qarg)
+				query(nil)
 			}
 		}
 	}
@@ -279,6 +352,22 @@ func newExec(t *testing.T) func([]string) string {
 		case a[0] == "enable":
 			v.SetEnabled(true)
 			v.SeedSelf()
+			return "ok"
+		case a[0] == "renew" && len(a) == 3:
+			// certificate reload + DNS reload: the own certificate is replaced, then seedSelf runs
+			for k, who := range txtOwner {
+				if who == "self" {
+					txtOwner[k] = "stale-self"
+				}
+			}
+			addrs := parseAddrs(a[2])
+			c := mkCert(unhexStr(a[1]), addrs)
+			register(c, "self")
+			v.SetSelf(c, addrs)
+			v.SeedSelf()
+			return "ok"
+		case a[0] == "drop" && len(a) == 2:
+			v.DeleteHostInfo(uint32(1000 + hlib.Atoi(a[1])))
 			return "ok"
 		case a[0] == "hs" && len(a) == 4:
 			k := hlib.Atoi(a[1])
